@@ -10,11 +10,18 @@ import (
 	"strings"
 	"sync"
 
+	"github.com/oxia-db/oxia/common/metric"
 	"github.com/oxia-db/oxia/proto"
 	"github.com/oxia-db/oxia/server/kv"
 )
 
-func Quiet() { slog.SetDefault(slog.New(slog.NewTextHandler(io.Discard, nil))) }
+// Quiet silences logging and replaces the OpenTelemetry meter by a no-op one: gauge callbacks
+// registered with the real meter capture controllers and databases and would keep every
+// explored execution alive for the life of the process.
+func Quiet() {
+	slog.SetDefault(slog.New(slog.NewTextHandler(io.Discard, nil)))
+	metric.VerifUseNoopMeter()
+}
 
 // CapFactory wraps a kv.Factory and remembers every KV it created.
 type CapFactory struct {
